@@ -171,7 +171,7 @@ fn budget(g: Group, n: usize, thorough: bool) -> usize {
         _ => 0,
     };
     if thorough {
-        q * 16
+        q * 48
     } else {
         q
     }
@@ -239,7 +239,7 @@ fn main() {
                 (Group::Npn, 7) => 4,
                 (Group::P, 9) => 2,
                 _ => 40,
-            } * if thorough { 12 } else { 1 };
+            } * if thorough { 40 } else { 1 };
             let mine = (metas + chunks - 1 - c) / chunks;
             for _ in 0..mine {
                 let (_, f) = gen::any_fam(n, &mut rng);
